@@ -669,6 +669,20 @@ fn run(case: &Case, obs: &mut Obs) -> Option<Violation> {
                 if classes.contains(&(false, Tri::Sat)) && classes.contains(&(true, Tri::Sat)) {
                     obs.count("reach.forbid_overrides_permit");
                 }
+                {
+                    let (_, _, _, _) = (0, 0, 0, 0);
+                    let sat_permits = m.items.iter().filter(|(_, it)| match it {
+                        Item::Static(p) => p.permit && m.eval(p, None, None, req) == Tri::Sat,
+                        Item::Link(t, sp, sr) => matches!(m.items.get(t), Some(Item::Template(p)) if p.permit && m.eval(p, *sp, *sr, req) == Tri::Sat),
+                        _ => false,
+                    }).count();
+                    if sat_permits >= 4 && classes.contains(&(false, Tri::Sat)) {
+                        obs.count("reach.many_permits_one_forbid");
+                    }
+                    if sat_permits >= 4 {
+                        obs.count("reach.four_or_more_satisfied_permits");
+                    }
+                }
                 if m.n_policies() > 0 && classes.iter().all(|(_, t)| *t == Tri::Err) {
                     obs.count("reach.all_policies_error");
                 }
@@ -788,6 +802,14 @@ pub fn gen_pol(rng: &mut Rng, template: bool) -> Pol {
     }
 }
 
+/// a policy that is satisfied on most requests (used by "flood" runs: many satisfied permits and a few forbids)
+pub fn gen_pol_easy(rng: &mut Rng) -> Pol {
+    let sc = |rng: &mut Rng| if rng.pct(80) { ScopeC::Any } else { ScopeC::Is(rng.pick_str(&["U", "G", "R"]).to_string()) };
+    let lit = rng.below(N_NONACT as usize) as u8;
+    let clauses = if rng.pct(60) { vec![] } else { vec![(true, rng.pick(&[Atom::True, Atom::CtxHasK, Atom::True, Atom::ResourceInLit(lit)]).clone())] };
+    Pol { permit: rng.pct(80), pc: sc(rng), ac: ActC::Any, rc: sc(rng), clauses, annotated: false }
+}
+
 pub fn gen_ent(rng: &mut Rng, idx: u8) -> EntRec {
     // parents only among higher indices of the same kind (actions among actions): no cycles here
     let mut parents = vec![];
@@ -828,7 +850,9 @@ impl World for Authz {
         let mut rng = Rng::sub(seed, "workload");
         let mut hs = Rng::sub(seed, "hashkeys");
         let idpool = rng.range(4, IDS.len());
-        let nops = rng.range(6, 40);
+        // swarm: "flood" runs build large sets of mostly satisfied policies
+        let flood = rng.pct(25);
+        let nops = if flood { rng.range(20, 45) } else { rng.range(6, 40) };
         let mut ops = vec![];
         // initial store
         let mut first = vec![];
@@ -843,15 +867,25 @@ impl World for Authz {
         let mut statics: Vec<u8> = vec![];
         let mut templates: Vec<(u8, (bool, bool))> = vec![];
         let mut links: Vec<u8> = vec![];
-        let w: Vec<u32> = vec![16, 4, 7, 1, 2, 1, 3, 1, 14, 3, 2];
+        let w: Vec<u32> = if flood { vec![30, 2, 3, 1, 1, 1, 2, 1, 12, 2, 2] } else { vec![16, 4, 7, 1, 2, 1, 3, 1, 14, 3, 2] };
         while ops.len() < nops {
             match rng.weighted(&w) {
                 0 => {
-                    let id = rng.below(idpool) as u8;
+                    let mut id = rng.below(idpool) as u8;
+                    if flood {
+                        // prefer unused ids so that the set really grows
+                        for _ in 0..6 {
+                            if !statics.contains(&id) && !links.contains(&id) && !templates.iter().any(|t| t.0 == id) {
+                                break;
+                            }
+                            id = rng.below(IDS.len()) as u8;
+                        }
+                    }
                     if !statics.contains(&id) && !links.contains(&id) && !templates.iter().any(|t| t.0 == id) {
                         statics.push(id);
                     }
-                    ops.push(Op::AddStatic { id, pol: gen_pol(&mut rng, false) });
+                    let pol = if flood && rng.pct(80) { gen_pol_easy(&mut rng) } else { gen_pol(&mut rng, false) };
+                    ops.push(Op::AddStatic { id, pol });
                 }
                 1 => {
                     let id = rng.below(idpool) as u8;
@@ -1000,7 +1034,7 @@ impl World for Authz {
         ]
     }
     fn reach_probes(&self) -> Vec<&'static str> {
-        vec!["reach.mixed_classes_response", "reach.erroring_forbid_with_satisfied_permit", "reach.forbid_overrides_permit", "reach.all_policies_error", "reach.reissued_on_unchanged_state"]
+        vec!["reach.many_permits_one_forbid", "reach.mixed_classes_response", "reach.erroring_forbid_with_satisfied_permit", "reach.forbid_overrides_permit", "reach.all_policies_error", "reach.reissued_on_unchanged_state"]
     }
 }
 
